@@ -173,11 +173,11 @@ func cliOps(c *Case, chartDir, tmp string, allValid bool, single string) []OpObs
 			if err != nil {
 				o.Err = err.Error() + " | " + txt
 			}
-			if strings.Contains(txt, schemaErrPrefix) {
-				o.SchemaErr = true
-				o.Named = namedCharts(c, txt)
-			} else if strings.Contains(txt, "[ERROR] values.yaml: - at '") {
-				o.SchemaErr = true
+			for _, line := range strings.Split(txt, "[ERROR] ")[1:] {
+				if isSchemaComplaint(line) {
+					o.SchemaErr = true
+					o.Named = append(o.Named, namedCharts(c, line)...)
+				}
 			}
 		}()
 		out = append(out, o)
